@@ -191,4 +191,26 @@ CHECKS = {
         "required_classes": {"has:hidden-command": 0.1, "has:hidden-value": 0.1, "has:env-list": 0.2, "route:short-help-after-rejection": 0.1, "depth>=1": 0.2},
         "assumptions": COMMON_ASSUMPTIONS + ["boilerplate wording and column layout are not compared"],
     },
+    "C18": {
+        "tests": [{"name": "TestC18", "quick": 160000, "thorough": 3200000}],
+        "rule": "cases = sequences of 1-6 declaration calls; options carry 1-4 names drawn from a 12-name pool (so collisions inside one list, across options, between short and long forms and in either order are frequent), "
+                "declared through seven styles (Var with recorder, BoolOpt/StringOpt/IntOpt structs, BoolOpt()/StringOpt()/StringsOpt() short forms); argument names from a pool of valid identifiers, duplicates and "
+                "blank-free invalid strings (lower case, digit first, OPTIONS, A-B, A.B, empty, non-ASCII, X=, [X], X...); oracle: a name-table model - the panic must come at exactly the first colliding / invalid "
+                "declaration and nowhere else; for every surviving declaration set each listed name is probed in its own run ('-n' / '--name[=v]', one-letter names short, others long) and exactly the owning variable "
+                "must change while all others keep their defaults and the arguments receive the positionals in declaration order. non-trivial = first invalid declaration is not the first call, or a surviving set "
+                "with an option of >= 3 names; distinct by the declaration sequence",
+        "required_classes": {"outcome:all-accepted": 0.1, "panic:not-first-declaration": 0.1, "probe:name-addresses-own-variable": 0.1},
+        "assumptions": COMMON_ASSUMPTIONS,
+    },
+    "C19": {
+        "tests": [{"name": "TestC19", "quick": 64000, "thorough": 1600000}],
+        "rule": "cases = programs whose every option and argument is an instrumented custom value type logging each Set and Clear, built from every subset of the optional methods "
+                "(IsBoolFlag returning true or false, Clear, IsDefault), with scripted Set failures, optional environment lists (valid, padded, failing items), specs '[OPTIONS] X...', '-c... X' and random ones, "
+                "argv from the C01 sources; oracle: invariants over the call log - at declaration exactly (Clear,) Set(trimmed environment items) per SetFromEnv's documented protocol; on a rejected line no call at all; "
+                "on an accepted line, per container, exactly one Clear first iff the type has Clear and the command line supplies something, then Set calls whose token lists form a derivation of the reference "
+                "semantics (bare flags give Set(\"true\") iff IsBoolFlag() is true); a failing Set ends the calls to that value and makes the invocation a usage error without Action. "
+                "non-trivial = accepted run with >= 2 Set calls and a Clear, or a failing Set; distinct by full case",
+        "required_classes": {"outcome:accepted": 0.2, "outcome:set-error-is-usage-error": 0.005, "type:flag-like-custom-type-used": 0.03, "type:isboolflag-false": 0.05},
+        "assumptions": COMMON_ASSUMPTIONS + ["String/IsDefault/IsBoolFlag call counts are not asserted, only Set/Clear order and content"],
+    },
 }
